@@ -33,19 +33,21 @@ EXPRS = {
     "quad_xy": ("bin", "+", ("bin", "*", X, X), ("bin", "*", ("const", ("sym", "c2")), ("bin", "*", Y, Y))),
     "lin_xz": ("bin", "+", X, ("bin", "*", ("num", ("sym", "c1")), Z)),
     "exp_xz": ("bin", "+", ("un", "exp", X), ("bin", "*", Z, Z)),
+    "quad_ax": ("bin", "+", ("bin", "*", ("var", "a"), ("var", "a")), ("bin", "*", ("const", ("sym", "c1")), X)),   # 'a' sorts BEFORE x: shifts the layout
 }
 CONS = {
     "c_lin": [("ge", ("bin", "+", X, Y), ("num", ("sym", "r1")))],
     "c_nl": [("le", ("bin", "*", X, Y), ("num", ("sym", "r2")))],
     "c_list": [("ge", X, ("num", 0.0)), ("le", Z, ("num", ("sym", "r3")))],
     "c_eq": [("eq", ("bin", "-", X, Y), ("num", ("sym", "r1")))],
+    "c_list_rev": [("le", Z, ("num", ("sym", "r3"))), ("ge", X, ("num", 0.0))],   # the NEW variable is not in the last element
 }
 SOLVES = ["auto", "SLSQP", "trust-constr", "highs"]
 
 META = dict(
     rule="one case = (operation history, observation step); the solver quantifies over the point x and all symbolic data (coefficients, right-hand sides, every bound value ever assigned)",
     bounds={
-        "quick": "alphabet of 15 operations (4 objectives via minimize, 1 via maximize, 4 subject_to incl. a list, 2 bound assignments, 4 solve methods {auto, SLSQP, trust-constr, highs}, read); histories of length <= 4 that start by setting an objective and end with an observation (exhaustive, about 4.5k)",
+        "quick": "alphabet of 16 operations (4 objectives via minimize incl. one that shifts the variable layout, 1 via maximize, 4 subject_to incl. two lists, 2 bound assignments, 4 solve methods {auto, SLSQP, trust-constr, highs}, read); histories of length <= 4 that start by setting an objective and end with an observation (exhaustive, about 4.5k) plus three targeted length-5 families: [objective, constraint, solve, new objective or bound edit, solve] and [objective, solve, constraint, constraint, solve] over all objectives / constraints and methods {auto, SLSQP}",
         "thorough": "length <= 5 (exhaustive with the same pruning), plus L-BFGS-B and highs-ds",
     },
     outside=["solver replies (fixed non-branching reply; mapping is C06-C08)", "removal of constraints (no API)", "rounding (S7)"],
@@ -61,6 +63,8 @@ def worker_init(tier, seed):
 
 def alphabet(tier):
     ops = [("min", k) for k in EXPRS] + [("max", "lin_xy")] + [("sub", k) for k in CONS] + [("lb", "y"), ("ub", "x")]
+    if tier == "quick":   # keep the exhaustive product affordable: one representative of each kind in the middle positions
+        ops = [o for o in ops if o not in (("min", "exp_xz"), ("sub", "c_eq"))]
     obs = [("solve", m) for m in SOLVES + (["L-BFGS-B", "highs-ds"] if tier == "thorough" else [])] + [("read", "")]
     return ops, obs
 
@@ -75,8 +79,32 @@ def items(tier, seed):
             for f in first:
                 for last in obs:
                     hs.append((f,) + mid + (last,))
+    # targeted length-5 families (the canonical staleness patterns): solve, then replace the objective /
+    # add constraints / edit a bound, then solve again
+    objs = [o for o in ops if o[0] in ("min", "max")]
+    subs = [o for o in ops if o[0] == "sub"] + [("sub", "c_eq")]
+    edits = [o for o in ops if o[0] in ("lb", "ub")]
+    ms = [("solve", "auto"), ("solve", "SLSQP")]
+    extra = []
+    for A in objs:
+        for C_ in subs:
+            for m1 in ms:
+                for m2 in ms:
+                    for B in objs:
+                        if B != A:
+                            extra.append((A, C_, m1, B, m2))
+                    for e in edits:
+                        extra.append((A, C_, m1, e, m2))
+        for m1 in ms:
+            for m2 in ms:
+                for C1 in subs:
+                    for C2 in subs:
+                        if C1 != C2:
+                            extra.append((A, m1, C1, C2, m2))
+    seen = set(hs)
+    extra = [h for h in extra if h not in seen]
     its = [("twin", 0)]
-    for ch in K.chunks(hs, 80):
+    for ch in K.chunks(hs + extra, 80):
         its.append(("hist", ch))
     return its
 
@@ -148,6 +176,16 @@ def compare_calls(a, b, xs_names, val, what, sig, payload, allv, pc=()):
         r = _cmp_bounds(ca["bounds"], cb["bounds"], claims)
         if r:
             return [violation(sig + "|lp-bounds", f"{what}: bounds {r}", payload)]
+    try:
+        return _compare_minimize(ma, mb, xs_names, val, what, sig, payload, allv, pc, claims, res)
+    except SymbolicConcretisation:
+        raise
+    except Exception as e:  # noqa: BLE001  a recorded callable itself raises (e.g. stale index layout)
+        return [violation(sig + f"|callable-raises:{type(e).__name__}", f"{what}: a callable handed to the solver raises {type(e).__name__}: {str(e)[:80]}", payload)]
+
+
+def _compare_minimize(ma, mb, xs_names, val, what, sig, payload, allv, pc, claims, res):
+    from vf.engine import smt
     for ca, cb in zip(ma, mb):
         if ca["method"] != cb["method"]:
             return [violation(sig + "|method", f"{what}: method {ca['method']} vs fresh {cb['method']}", payload)]
@@ -209,24 +247,28 @@ def _history_path(hist, planted=False):
     from vf.engine import npshim, smt
     from vf.engine.sym import SReal
     res = []
-    base = ["x", "y", "z", "c1", "c2", "r1", "r2", "r3", "lx", "ux0", "ly0"]
+    base = ["a", "x", "y", "z", "c1", "c2", "r1", "r2", "r3", "lx", "ux0", "ly0"]
     val = K.sym_val(base)
     w = World(val)
     p = Problem()
     cur_obj, cur_sense, cur_cons = None, "minimize", []
+    ref_obj, ref_cons, ref_bounds = None, [], {"x": (("sym", "lx"), ("sym", "ux0")), "y": (("sym", "ly0"), None)}
     allv = list(base)
     htag = ">".join(f"{a}:{b}" if b else a for a, b in hist)
     for step, (op, arg) in enumerate(hist):
         if op == "min":
             p.minimize(w.exprs[arg])
             cur_obj, cur_sense = w.exprs[arg], "minimize"
+            ref_obj = EXPRS[arg]
         elif op == "max":
             p.maximize(w.exprs[arg])
             cur_obj, cur_sense = w.exprs[arg], "maximize"
+            ref_obj = EXPRS[arg]
         elif op == "sub":
             cs = w.cons[arg]
             p.subject_to(cs if len(cs) > 1 else cs[0])
             cur_cons = cur_cons + cs
+            ref_cons = ref_cons + CONS[arg]
         elif op in ("lb", "ub"):
             w.nb += 1
             name = f"b{w.nb}"
@@ -234,6 +276,8 @@ def _history_path(hist, planted=False):
             allv.append(name)
             val[name] = nb
             setattr(w.b.objs[arg], op, nb)
+            old_b = ref_bounds.get(arg, (None, None))
+            ref_bounds[arg] = (("sym", name), old_b[1]) if op == "lb" else (old_b[0], ("sym", name))
         else:
             fresh = fresh_problem(cur_obj, cur_sense, cur_cons)
             payload = dict(kind="hist", hist=[list(h) for h in hist], step=step)
@@ -258,6 +302,9 @@ def _history_path(hist, planted=False):
                 b_ = capture(fresh, arg)
                 xs = [v.name for v in fresh.variables] if cur_obj is not None else []
                 res.append(("calls", (a, b_, xs, dict(val), f"{htag}@{step}: solve({arg}) arguments == fresh problem", sig, payload, list(allv), planted)))
+                if cur_obj is not None:
+                    model = dict(tag=htag, obj=ref_obj, sense="min" if cur_sense == "minimize" else "max", cons=list(ref_cons), bounds=dict(ref_bounds))
+                    res.append(("ref", (a, model, dict(val), f"{htag}@{step}: solve({arg})", sig, payload, list(allv), arg)))
     return res
 
 
@@ -275,9 +322,35 @@ def run_history(hist, planted=False):
                 if pl:
                     rr = [violation(sig + "|planted", "planted", payload)]
                 out += rr
+            elif r[0] == "ref":
+                out += reference_obligations(r[1], pc)
             elif r[0] == "bounds":
                 claims, what, sig, payload, allv = r[1]
                 out.append(K.decide(claims, pc, [], what, sig, payload, allv, QT[_TIER]))
+    return out
+
+
+def reference_obligations(args, pc):
+    """independent oracle: what the long-lived problem hands to the solver must describe the CURRENT model
+    as the reference interpreter reads it (not merely equal what a fresh Problem over the same objects hands over)"""
+    from vf.props import c16
+    from vf.props import lpmodels as LM
+    from vf.props import solving as SV
+    (ma, la, ea), model, val, what, sig, payload, allv, method = args
+    if ea is not None:
+        return []
+    out = []
+    cols = sorted(c16.mentioned(model), key=lambda n: (c16.natural_key(n), n))
+    if any(n not in val for n in cols):
+        return [harness_error(f"unknown variable among {cols}", item=what)]
+    form = "edits-after-solve=" + sig.split("edits-after-solve=")[-1]
+    for call in ma[:1]:
+        if len(call["x0"]) != len(cols):
+            out.append(violation(sig + "|ref-nvars", f"{what}: the solver gets {len(call['x0'])} variables, the current model mentions {cols}", payload))
+            continue
+        out += SV.minimize_call_obligations(call, model, cols, val, pc, what + " [vs reference]", form, method, "C13", QT[_TIER], allv, payload, check_x0=False)
+    for call in la[:1]:
+        out += SV.lp_call_obligations(call, model, cols, val, pc, what + " [vs reference]", form, "C13", QT[_TIER], allv, payload)
     return out
 
 
@@ -328,12 +401,13 @@ def replay(payload):
     from optyx import Problem
     hist = [tuple(h) for h in payload["hist"]]
     rng = random.Random(13)
-    base = ["x", "y", "z", "c1", "c2", "r1", "r2", "r3", "lx", "ux0", "ly0"]
+    base = ["a", "x", "y", "z", "c1", "c2", "r1", "r2", "r3", "lx", "ux0", "ly0"]
     val = {n: rng.uniform(0.5, 1.5) for n in base}
     val["lx"], val["ly0"], val["ux0"] = -1.0, -2.0, 4.0
     w = World(val)
     p = Problem()
     cur_obj, cur_sense, cur_cons = None, "minimize", []
+    ref_obj, ref_cons = None, []
 
     def cap(problem, method):
         m, l = [], []
@@ -361,12 +435,12 @@ def replay(payload):
 
     for step, (op, arg) in enumerate(hist):
         if op == "min":
-            p.minimize(w.exprs[arg]); cur_obj, cur_sense = w.exprs[arg], "minimize"
+            p.minimize(w.exprs[arg]); cur_obj, cur_sense = w.exprs[arg], "minimize"; ref_obj = EXPRS[arg]
         elif op == "max":
-            p.maximize(w.exprs[arg]); cur_obj, cur_sense = w.exprs[arg], "maximize"
+            p.maximize(w.exprs[arg]); cur_obj, cur_sense = w.exprs[arg], "maximize"; ref_obj = EXPRS[arg]
         elif op == "sub":
             cs = w.cons[arg]
-            p.subject_to(cs if len(cs) > 1 else cs[0]); cur_cons = cur_cons + cs
+            p.subject_to(cs if len(cs) > 1 else cs[0]); cur_cons = cur_cons + cs; ref_cons = ref_cons + CONS[arg]
         elif op in ("lb", "ub"):
             setattr(w.b.objs[arg], op, rng.uniform(-0.9, -0.1) if op == "lb" else rng.uniform(2.0, 3.0))
         else:
@@ -378,6 +452,9 @@ def replay(payload):
                     return True, f"step {step}: long-lived problem reports {got}, fresh problem {want}"
                 continue
             (ma, la, ea), (mb, lb, eb) = cap(p, arg), cap(fresh, arg)
+            r = _replay_reference(ma, la, ea, ref_obj, cur_sense, ref_cons, val, step, rng)
+            if r:
+                return True, r
             if type(ea) is not type(eb):
                 return True, f"step {step}: solve raises {ea!r} but a fresh problem {eb!r}"
             if len(ma) != len(mb) or len(la) != len(lb):
@@ -410,6 +487,48 @@ def replay(payload):
                             if u["type"] != v["type"] or not K.close(float(u["fun"](x)), float(v["fun"](x)), 1e-9, 1e-12) or not _same(u["jac"](x), v["jac"](x)):
                                 return True, f"step {step}: a constraint differs from a fresh problem"
     return False, "no difference reproduced"
+
+
+def _replay_reference(ma, la, ea, ref_obj, sense, ref_cons, val, step, rng):
+    """numeric version of reference_obligations"""
+    from vf.engine.recipes import Ref
+    from vf.props import c16
+    from vf.props import lpmodels as LM
+    if ea is not None or ref_obj is None:
+        return None
+    model = dict(obj=ref_obj, sense="min" if sense == "minimize" else "max", cons=list(ref_cons), bounds={})
+    cols = sorted(c16.mentioned(model), key=lambda n: (c16.natural_key(n), n))
+    sgn = 1.0 if sense == "minimize" else -1.0
+    for call in ma[:1]:
+        if len(call["x0"]) != len(cols):
+            return f"step {step}: the solver gets {len(call['x0'])} variables but the current model mentions {cols}"
+        for _ in range(6):
+            pt = dict(val)
+            for n in cols:
+                pt[n] = rng.uniform(0.3, 1.6)
+            x = np.array([pt[n] for n in cols])
+            with np.errstate(all="ignore"):
+                f = float(call["fun"](x))
+                want = sgn * float(Ref(pt, 0).S(ref_obj))
+                if np.isfinite(f) and np.isfinite(want) and not K.close(f, want, 1e-7, 1e-9):
+                    return f"step {step}: objective handed to the solver gives {f} at {pt}, the current model gives {want}"
+                for cd, (kind, l, r_) in zip(call.get("constraints") or [], ref_cons):
+                    rs, v = LM.con_ref(Ref(pt, 0), kind, l, r_)
+                    cf = float(cd["fun"](x))
+                    if not K.close(abs(cf), abs(float(v)), 1e-7, 1e-9) or (rs == "<=" and abs(float(v)) > 1e-9 and (cf >= 0) != (float(v) <= 0)):
+                        return f"step {step}: constraint ({kind}) handed to the solver gives {cf} at {pt}, the user's relation value is {float(v)}"
+    for call in la[:1]:
+        if len(call["c"]) != len(cols):
+            return f"step {step}: linprog gets {len(call['c'])} columns but the current model mentions {cols}"
+        for _ in range(6):
+            p1, p2 = dict(val), dict(val)
+            for n in cols:
+                p1[n], p2[n] = rng.uniform(-1, 2), rng.uniform(-1, 2)
+            lhs = float(np.dot(call["c"], [p1[n] for n in cols]) - np.dot(call["c"], [p2[n] for n in cols]))
+            rhs = sgn * (float(Ref(p1, 0).S(ref_obj)) - float(Ref(p2, 0).S(ref_obj)))
+            if not K.close(lhs, rhs, 1e-7, 1e-9):
+                return f"step {step}: linprog cost {np.asarray(call['c']).tolist()} does not follow the current objective"
+    return None
 
 
 def _same(u, v):
